@@ -15,6 +15,27 @@ pub struct PropDef {
 const REF_ASSUME: &str = "the reference models under /verif/sim/src/refmodel are correct readings of the standards; they are validated before every check against the published examples (GB/T 32905, GM/T 0003.5 Annex A sign/encrypt/key-agreement, ZUC v1.6 test sets, GM/T 0044.5 Annex A sign/encrypt/key-exchange)";
 const SAMPLE_ASSUME: &str = "keys, identities, messages and nonces are sampled from seeded classes, not enumerated: a clean batch is evidence, not proof";
 
+/// Vacuity guards: counters that must reach a minimum in every run of a check. A check whose
+/// scheduler silently stopped producing what it is supposed to judge (no accepted corpus item, no
+/// crafted fault fired, the rare branch not reached, ...) ends in a harness error, not in a pass.
+pub fn guards(id: &str) -> Vec<(&'static str, u64)> {
+    match id {
+        "C03" => vec![("oracle.C03.O3.5-exact", 1000), ("oracle.C03.O3.4-complete", 1000), ("oracle.C03.annex-example", 1), ("oracle.C03.O3.4-openssl-signature", 24), ("probe.corpus.openssl-signature-accepted", 12), ("probe.sm2.verify.accepted", 1000)],
+        "C04" => vec![("probe.sm2.verify.accepted", 1000), ("probe.sm2.verify.rejected", 10000), ("fault.flip", 20000), ("fault.truncate", 2000), ("fault.xorpair", 100), ("fault.crafted-k-zero", 10), ("fault.crafted-order2-key", 10)],
+        "C05" => vec![("oracle.C05.O5.2-exact", 500), ("oracle.C05.annex-example", 1), ("oracle.C05.O5.4-openssl-ciphertext", 48), ("oracle.C05.O5.4-independent-ciphertext-decrypts", 1500), ("oracle.C05.kdf-exact", 200), ("probe.sm2.encrypt.retry", 1), ("probe.sm2.zero-kdf-nonce-found", 1), ("probe.sm2.decrypt.accepted", 2000)],
+        "C06" => vec![("probe.sm2.decrypt.accepted", 1000), ("probe.sm2.decrypt.rejected", 10000), ("fault.flip", 20000), ("fault.truncate", 2000), ("fault.crafted-invalid-curve", 10), ("fault.crafted-zero-point", 4), ("fault.crafted-non-residue-consistent", 4), ("fault.crafted-coordinate-ge-p", 4), ("fault.xorpair", 100)],
+        "C08" => vec![("history.exhaustive", 131072), ("history.seeded", 1000), ("probe.zuc.zero-length-request", 10000), ("oracle.C08.keystream", 1000000)],
+        "C09" => vec![("oracle.C09.O9.3-exact", 100), ("oracle.C09.annex-example", 1), ("probe.sm9.verify.accepted", 500), ("probe.sm9.verify.rejected", 2000), ("fault.flip", 3000)],
+        "C10" => vec![("oracle.C10.O10.2-exact", 200), ("oracle.C10.annex-example", 1), ("probe.sm9.k1-zero-r-found", 1), ("probe.sm9.decrypt.accepted", 500), ("probe.sm9.decrypt.rejected", 4000), ("fault.crafted-offcurve-C1", 8), ("fault.crafted-zero-point", 4), ("fault.xorpair", 50)],
+        "C14" => vec![("oracle.C14.used-was-offered", 10000), ("rngfault.offer-0", 11), ("rngfault.offer-order", 11), ("rngfault.offer-2^256-1", 11), ("rngfault.offer-eight-in-a-row", 11), ("oracle.C14.M3-bit-frequency", 11), ("oracle.C14.M3-restart-fresh", 1), ("oracle.C14.M3-threads-fresh", 1), ("probe.c14.m3-scalars-sm2", 5000), ("probe.c14.m3-scalars-sm9", 2000), ("probe.c14.m3-restart-scalars", 60), ("history.same-inputs-again", 100)],
+        "C15" => vec![("probe.sm2.kex.completed", 300), ("oracle.C15.O15.2-K_A-conforms", 200), ("oracle.C15.O15.3-tamper-detected", 300), ("history.second-run-on-same-objects", 20), ("history.tamper-subset-15", 6)],
+        "C17" => vec![("oracle.C17.annex-example", 1), ("probe.sm9.kex.completed", 40), ("probe.sm9.kex.zero-key-rB-found", 1), ("oracle.C17.O17.3-offcurve-rejected", 500), ("oracle.C17.O17.2-SK_A-conforms", 20), ("history.encrypt-before-exchange", 5)],
+        "C19" => vec![("oracle.C19.O19.2-openssl-document", 30), ("oracle.C19.O19.4-openssl-ciphertext", 12), ("oracle.C19.O19.4-der-exact", 100), ("probe.asn1.rare-k.x-lead-3", 1), ("probe.asn1.rare-k.y-lead-1-then-high-bit", 1), ("probe.doc.pk.accepted", 500), ("probe.doc.pk.rejected", 2000), ("probe.doc.sk.accepted", 500), ("history.semantic-documents", 3)],
+        "C20" => vec![("oracle.C20.outcome-class", 30000), ("probe.c20.boundary-key-accepted", 4), ("probe.c20.boundary-key-rejected", 4), ("history.entry.sm9.decrypt", 500), ("history.entry.sm4.ctr_decrypt(data)", 500), ("history.entry.sm9.mod_n_from_hash", 500)],
+        _ => vec![],
+    }
+}
+
 pub fn lookup(id: &str) -> Option<PropDef> {
     all().into_iter().find(|d| d.id == id)
 }
